@@ -1,0 +1,33 @@
+//go:build verif
+
+// Contracts for the verification machinery in /verif (comment-only, built only with -tags verif).
+
+package k8s
+
+// ---- C20: the four event handlers run under the Listener's mutex, so they never overlap ----
+// Each wrapper takes the mutex, calls the registered callback while holding it, and releases it on every path.
+
+//@ func (*Listener).ServiceHandler
+//@   lockonly
+//@   requires l != nil && lockstate(l.Mutex) == 0
+//@   ensures lockstate(l.Mutex) == 0 && lockframe(l.Mutex)
+//@   assert before ServiceChanged: [serialised] lockstate(l.Mutex) == 2
+//@   modifies $held
+//@ func (*Listener).ConfigHandler
+//@   lockonly
+//@   requires l != nil && lockstate(l.Mutex) == 0
+//@   ensures lockstate(l.Mutex) == 0 && lockframe(l.Mutex)
+//@   assert before ConfigChanged: [serialised] lockstate(l.Mutex) == 2
+//@   modifies $held
+//@ func (*Listener).NodeHandler
+//@   lockonly
+//@   requires l != nil && lockstate(l.Mutex) == 0
+//@   ensures lockstate(l.Mutex) == 0 && lockframe(l.Mutex)
+//@   assert before NodeChanged: [serialised] lockstate(l.Mutex) == 2
+//@   modifies $held
+//@ func (*Listener).PoolHandler
+//@   lockonly
+//@   requires l != nil && lockstate(l.Mutex) == 0
+//@   ensures lockstate(l.Mutex) == 0 && lockframe(l.Mutex)
+//@   assert before PoolChanged: [serialised] lockstate(l.Mutex) == 2
+//@   modifies $held
